@@ -269,6 +269,48 @@ func scenC06(c *ctx) {
 		cases("hand", cfgSuiteArg(cf))
 	}
 	c.scenC06Near()
+	// sibling suites: the same secret, suite-string text, digit count and input under configurations that differ in
+	// hash or in the selected fields; a code generated under one must not validate under the other (and each
+	// validates under its own), in both orders, back to back
+	for i := 0; i < c.n(40, 600); i++ {
+		id++
+		key := c.someKey()
+		secret := b32(key)
+		raw := []byte(fmt.Sprintf("OCRA-1:SIBLING-%d", c.rng.Intn(5)))
+		d := 4 + c.rng.Intn(7)
+		a := c.handBuilt(c.rng.Intn(32)|2, c.rng.Intn(3), d, raw)
+		b := a
+		switch i % 4 {
+		case 0:
+			b.Hash = (a.Hash + 1 + c.rng.Intn(2)) % 3
+		case 1:
+			b.C = !a.C
+		case 2:
+			b.S = !a.S
+		default:
+			b.T = !a.T
+			if b.T {
+				b.TS = 30
+			}
+		}
+		in := c.admissibleInput(Cfg{C: true, Q: true, P: a.P || b.P, S: true, T: true, Chal: a.Chal, PH: maxInt(a.PH, 1)}, i)
+		if a.P {
+			in.Password = c.randBytes(pwLen(a.PH))
+		}
+		sa, sb := cfgSuiteArg(a), cfgSuiteArg(b)
+		ga := doGenerateOCRA("probe", secret, sa, in)
+		gb := doGenerateOCRA("probe", secret, sb, in)
+		if ga.Kind != "value" || gb.Kind != "value" {
+			continue
+		}
+		ca, cb := string(ga.Val), string(gb.Val)
+		c.rec.Emit(doValidateOCRA(fmt.Sprintf("C06/sibling/%d/aa", id), secret, ca, sa, in))
+		c.rec.Emit(doValidateOCRA(fmt.Sprintf("C06/sibling/%d/ab", id), secret, ca, sb, in))
+		c.rec.Emit(doValidateOCRA(fmt.Sprintf("C06/sibling/%d/bb", id), secret, cb, sb, in))
+		c.rec.Emit(doValidateOCRA(fmt.Sprintf("C06/sibling/%d/ba", id), secret, cb, sa, in))
+		c.rec.Emit(doGenerateOCRA(fmt.Sprintf("C06/sibling/%d/gena", id), secret, sa, in))
+		c.rec.Emit(doGenerateOCRA(fmt.Sprintf("C06/sibling/%d/genb", id), secret, sb, in))
+	}
 	// generation would fail: invalid suites and inadmissible inputs never validate, whatever the code
 	for i := 0; i < c.n(80, 1500); i++ {
 		id++
@@ -305,6 +347,13 @@ func scenC06(c *ctx) {
 		}
 		c.rec.Emit(doGenerateOCRA(fmt.Sprintf("C06/fail/%d/gen", id), b32(key), sa, in))
 	}
+}
+
+func maxInt(a, b int) int {
+	if a > b {
+		return a
+	}
+	return b
 }
 
 func uint64FromB(b []byte) uint64 {
